@@ -327,7 +327,7 @@ class Model:
         for n in self.nodes:
             k = n["kind"]
             nid = n.get("id", 0)
-            if k in ("source", "ticker", "c1", "c2", "c3", "sample", "samplemid", "conv", "sshot", "accum", "timer0", "timer1", "timer1v", "suml", "sumb"):
+            if k in ("source", "ticker", "c1", "c2", "c3", "sample", "samplemid", "conv", "sshot", "accum", "timer0", "timer1", "timer1p", "timer1v", "suml", "sumb"):
                 if self.fault_hit(nid, "start"):
                     self.failed = (nid, "start", t)
                     return
@@ -344,7 +344,7 @@ class Model:
                 self.pending[n["name"]].add(t + n.get("delay", 0) if n.get("delay") else t)
             elif k == "accum":
                 self.state[n["name"]] = 0
-            elif k in ("timer0", "timer1", "timer1v"):
+            elif k in ("timer0", "timer1", "timer1p", "timer1v"):
                 self.state[n["name"]] = 0
                 self.timer_ops(n, 0, t, True)
                 if n.get("start_sample") and self.quirks:
@@ -554,13 +554,13 @@ class Model:
                     if cur is None or self.resolve(cur[0]) != self.resolve(tgt):
                         old_ticked = self.view(cur[0], t)[1] if cur is not None else False
                         self.ite_sel[name] = (tgt, t, old_ticked)
-            elif k in ("timer0", "timer1", "timer1v"):
+            elif k in ("timer0", "timer1", "timer1p", "timer1v"):
                 ready = True
                 if k != "timer0":
                     v = self.view(n["args"][0], t)
-                    trig = due or v[1]
+                    trig = due or (v[1] and k != "timer1p")       # timer1p: its only input is compile-time passive
                     views = [v]
-                    ready = v[0] or k == "timer1"
+                    ready = v[0] or k in ("timer1", "timer1p")
                 else:
                     trig = due
                     views = []
